@@ -63,6 +63,20 @@ def run_countries(shard, mon, S):
             mon.viol("iban_length_arithmetic", w, f"{L}+4<=34", spec.get("iban_length"))
         if spec.get("iban_spec") != f"{cc}2!n{spec.get('bban_spec')}":
             mon.tally("note_iban_spec_differs_from_country_2n_bban_spec")  # not part of the property (territories carry the parent's iban_spec)
+        # the IBAN structure string is a structure string of the country too: two letters, "2!n" and then the
+        # very structure the BBAN string gives (the two letters may be the parent country's), and it describes
+        # exactly the stated IBAN length
+        ispec = spec.get("iban_spec")
+        if isinstance(ispec, str):
+            mon.tally("iban_structure_strings_checked")
+            itoks = R.parse_spec(ispec[2:]) if len(ispec) > 2 and ispec[:2].isalpha() and ispec[:2].isupper() else None
+            if itoks is None:
+                mon.viol("iban_structure_string_not_parseable", w, "two letters + n!x tokens", ispec)
+            else:
+                if 2 + sum(t[1] for t in itoks) != spec.get("iban_length") or sum(t[0] for t in itoks) != sum(t[1] for t in itoks):
+                    mon.viol("iban_structure_string_length_mismatch", {**w, "iban_spec": ispec}, spec.get("iban_length"), 2 + sum(t[1] for t in itoks))
+                if ispec[2:] != "2!n" + str(spec.get("bban_spec")):
+                    mon.viol("iban_structure_string_disagrees_with_bban_structure", {**w, "iban_spec": ispec}, "2!n" + str(spec.get("bban_spec")), ispec[2:])
         if "country" in spec and spec["country"] != cc:
             mon.tally("country_key_differs_note")
         pos = spec.get("positions") or {}
